@@ -367,7 +367,7 @@ func RunFull(c *gen.Ctx, prop string, cfgs []xeng.Config, nops, perOp int, singl
 				orderTerm = xeng.OrderCoq(res.Order)
 			}
 			term := fmt.Sprintf("{| xc_schema := sch; xc_root := %s; xc_sels := %s; xc_oracle := %s; xc_data := %s; xc_errors := %s; xc_log := %s; xc_recovers := %d%%nat; xc_order := %s |}",
-				gen.Str(root), selTerms[p.op], p.orc.Coq(), first.DataTerm(), first.ErrorsTerm(), xeng.LogCoq(res.Log), res.Recovers, orderTerm)
+				gen.Str(root), selTerms[p.op], p.orc.Effective(res.Ignored).Coq(), first.DataTerm(), first.ErrorsTerm(), xeng.LogCoq(res.Log), res.Recovers, orderTerm)
 			if seen[term] {
 				continue // this configuration behaves exactly like an earlier one on this case
 			}
